@@ -382,7 +382,7 @@ impl Ord for Iri {
 
 impl Hash for Iri {
 	fn hash<H: hash::Hasher>(&self, state: &mut H) {
-		self.parts().hash(state)
+		self.as_iri_ref().hash(state)
 	}
 }
 
